@@ -1,5 +1,6 @@
 import SR.Drv.Sem
 import SR.Sem.RegisterClient
+import SR.SExpEq
 /-! Driver commands for C18.
 Model side: `step`, `inv`, `hist` (reference objects), `rc-path` (register harness: client states and
 tester content after a path of model actions). Oracle side: `o-step`, `o-hist` (relations between
@@ -140,7 +141,8 @@ def oracleMirror (wo : Bool) (log : List LogEv) (valid : Bool) (content : List (
        | .ok (done, pend) =>
          match content.find? (fun e => e.1 == c) with
          | none => [s!"tester-has-no-thread-{c}"]
-         | some (_, d, p) => if d == done && p == pend then [] else [s!"tester-content-differs-from-mirror-client-{c}"])) ++
+         | some (_, d, p) => if sxEqv d done p pend then [] else [s!"tester-content-differs-from-mirror-client-{c}"])) ++
+    (if nodupB (content.map (·.1)) then [] else ["tester-content-lists-a-thread-twice"]) ++
     (content.flatMap fun e => if clients.contains e.1 then [] else
       (if e.2.1.isEmpty && e.2.2.isNone then [] else [s!"tester-has-operations-of-non-client-{e.1}"]))
   if errs.isEmpty then "ok" else " ".intercalate errs
